@@ -34,7 +34,7 @@ def conv(vals, container):
         return [int(v) if i % 2 else float(v) for i, v in enumerate(vals)]
     if container == "list_npint_first":
         # a numpy integer scalar first, then (possibly non-integer) floats: nothing may be truncated to the first element's type
-        return [np.int64(int(vals[0]))] + [float(v) for v in vals[1:]]
+        return [np.int64(int(vals[0])) if float(vals[0]).is_integer() else float(vals[0])] + [float(v) for v in vals[1:]]
     if container == "list_mixed_int_first":
         return [float(v) if i % 2 else int(v) for i, v in enumerate(vals)]  # a type inferred from the first element is wrong
     if container in ("np_uint8", "np_uint32", "np_int8", "np_float32"):
